@@ -100,12 +100,23 @@ pub const NEUTRAL: u8 = ALLOW_UNMATCHED;
 
 pub fn apply_cfg(c: &mut Config, bits: u8) {
     c.allow_unmatched_ends = bits & ALLOW_UNMATCHED != 0;
-    c.check_comments = bits & CHECK_COMMENTS != 0;
-    c.check_end_names = bits & CHECK_END_NAMES != 0;
     c.expand_empty_elements = bits & EXPAND_EMPTY != 0;
     c.trim_markup_names_in_closing_tags = bits & TRIM_NAMES != 0;
-    c.trim_text_start = bits & TRIM_START != 0;
-    c.trim_text_end = bits & TRIM_END != 0;
+    // where a pair of switches gets the same value, the documented helper that sets both is used
+    let (cc, ce) = (bits & CHECK_COMMENTS != 0, bits & CHECK_END_NAMES != 0);
+    if cc == ce {
+        c.enable_all_checks(cc);
+    } else {
+        c.check_comments = cc;
+        c.check_end_names = ce;
+    }
+    let (ts, te) = (bits & TRIM_START != 0, bits & TRIM_END != 0);
+    if ts == te {
+        c.trim_text(ts);
+    } else {
+        c.trim_text_start = ts;
+        c.trim_text_end = te;
+    }
 }
 
 pub fn cfg_bits(c: &Config) -> u8 {
